@@ -219,6 +219,16 @@ def predictWith {P Y : Type} (run : P → Y) (preds : List P) (best : Nat) : Opt
 def relabel (w : List Rat) : List (Nat × Rat) :=
   w.map (fun x => ((GridSrc.relabelY x).toNat, GridSrc.relabelW x))
 
+/-- the `else:` (regression) branch, lifted: the learner is fitted on the moment's own labels `y` with the signed weights
+    (`GridSrc.regressionY` / `regressionW`) -/
+def relabelReg (y w : List Rat) : List (Rat × Rat) :=
+  List.zipWith (fun yi wi => (GridSrc.regressionY yi wi, GridSrc.regressionW wi)) y w
+
+/-- what the estimator is fitted on at one grid point, for either kind of moment (`isMoment` = the constraints object is a
+    `ClassificationMoment`; lifted test `GridSrc.isClassification`): (label, sample weight) per row -/
+def fitData (isMoment : Bool) (y w : List Rat) : List (Rat × Rat) :=
+  if GridSrc.isClassification isMoment then (relabel w).map (fun p => (((p.1 : Nat) : Rat), p.2)) else relabelReg y w
+
 /-- `weights = constraints.signed_weights(lambda) [+ objective.signed_weights()]` row by row -/
 def combineWeights (span : Bool) (w ow : List Rat) : List Rat :=
   List.zipWith (GridSrc.combine span) w ow
@@ -283,6 +293,7 @@ def allSome {α} : List (Option α) → Option (List α)
         <objective per point> <gammas per point ;>` → `<best_idx> <trained labelings ;> <objectives>`
   `grid.select <cw> <objectives> <gammas, one row per predictor>`   → `<best idx> <losses>`
   `grid.relabel <signed weights>`                                   → `<labels> <abs weights>`
+  `grid.fitdata <ClassificationMoment 0/1> <y> <signed weights>`    → `<labels> <weights>` the estimator is fitted on
   `grid.cost <signed weights> <labeling per row>`                   → weighted 0/1 error -/
 def handle (toks : List String) : Option String :=
   match toks with
@@ -342,6 +353,14 @@ def handle (toks : List String) : Option String :=
       let j ← runningArgmin losses
       let k ← predictWith id (List.range objs.length) i
       pure (toString i ++ " " ++ toString j ++ " " ++ toString k)
+  | ["grid.fitdata", cls, y, w] => do
+    let cls ← Proto.parseBool cls
+    let y ← Proto.parseRats y
+    let w ← Proto.parseRats w
+    if y.length ≠ w.length then none
+    else
+      let d := fitData cls y w
+      pure (Proto.fmtRats (d.map (·.1)) ++ " " ++ Proto.fmtRats (d.map (·.2)))
   | ["grid.weights", span, w, ow] => do
     let span ← Proto.parseBool span
     let w ← Proto.parseRats w
